@@ -1,8 +1,155 @@
 /-
   C06 — ensemble CRPS is the exact CRPS of the ensemble, and its weighted parts add up.
+
+  The theorems are about `SV.Model.CrpsEns.*` — the line-by-line model of `crps_for_ensemble`,
+  `tw_crps_for_ensemble`, `tail_tw_crps_for_ensemble`, `interval_tw_crps_for_ensemble` (crps_impl.py), tied to the
+  source by the differential correspondence of tools/sv/props/c06.py — against `SV.Spec.CrpsEns.*`, the exact
+  step-function integral ∫ (F_ens − 1{· ≥ y})².  All statements hold for ensembles of any size and any rationals.
+  Members are `xs.map Fl.fin` (finite) unless the theorem is about missing (NaN) members.
 -/
-import ScoresVerif.Model.CrpsEns
-import ScoresVerif.Spec.CrpsEns
+import ScoresVerif.Lemmas.CrpsEns
 
 namespace SV.Props.C06
+open SV SV.Model.CrpsEns SV.Spec.CrpsEns SV.Lemmas.CrpsEns
+
+/-! ## 1. 'ecdf' = the exact integral of (F_ens − H_y)² -/
+
+/-- finite members, any ensemble size ≥ 1 -/
+theorem crpsEns_ecdf_eq_integral {xs : List Rat} (hx : xs ≠ []) (y : Rat) :
+    total .ecdf (xs.map Fl.fin) (Fl.fin y) = Fl.fin (crpsIntegral xs y) := by
+  rw [total_ecdf_fin hx, kernelEcdf_eq_integral hx]
+example : ([1, 3, 3] : List Rat) ≠ [] := by decide
+
+/-- the value for `include_components=True` is the same `total` -/
+theorem components_total (m : Method) (xs : List Fl) (y : Fl) : (components m xs y).total = total m xs y := rfl
+
+/-- missing members (NaN) are dropped: every component is the one of the ensemble of valid members -/
+theorem crpsEns_nan_members_dropped (m : Method) (xs : List Fl) (y : Fl) :
+    components m xs y = components m (valid xs) y := components_valid m xs y
+
+/-- with missing members: members that are rationals or NaN, at least one rational — the value is the integral for the
+    ensemble of the non-missing members (`Spec.crpsEcdfFl` drops NaN members) -/
+theorem crpsEns_ecdf_eq_integral_nan {xs : List Fl} (hfin : ∀ x ∈ xs, x = Fl.nan ∨ ∃ q, x = Fl.fin q) (y : Rat) :
+    total .ecdf xs (Fl.fin y) = crpsEcdfFl xs (Fl.fin y) := by
+  have hv : valid xs = (finVals xs).map Fl.fin := by
+    induction xs with
+    | nil => rfl
+    | cons a l ih =>
+      have ih' := ih (fun x hx => hfin x (List.mem_cons_of_mem _ hx))
+      rcases hfin a (by simp) with rfl | ⟨q, rfl⟩
+      · simpa [valid, finVals] using ih'
+      · simp only [valid, List.filter_cons, Fl.notNan_fin, if_true, finVals, List.map_cons] at ih' ⊢; rw [ih']
+  have h1 : total .ecdf xs (Fl.fin y) = total .ecdf (valid xs) (Fl.fin y) := by
+    have := components_valid .ecdf xs (Fl.fin y); exact congrArg Components.total this
+  rw [h1, hv]; unfold crpsEcdfFl
+  by_cases he : finVals xs = []
+  · simp [he, total, fcstObsTerm, nanmean, valid]
+  · rw [crpsEns_ecdf_eq_integral he]; simp [he]
+example : ∀ x ∈ ([Fl.fin 1, Fl.nan, Fl.fin 3] : List Fl), x = Fl.nan ∨ ∃ q, x = Fl.fin q := by
+  intro x hx; simp at hx; rcases hx with rfl | rfl | rfl <;> simp
+
+/-- a missing observation gives NaN -/
+theorem crpsEns_nan_obs (m : Method) (xs : List Fl) : total m xs Fl.nan = Fl.nan := total_nan_obs m xs
+
+/-! ## 2. 'fair' differs from 'ecdf' by the documented spread normalisation only -/
+
+theorem crpsEns_fair_eq_integral_sub_offset {xs : List Rat} (hx : 2 ≤ xs.length) (y : Rat) :
+    total .fair (xs.map Fl.fin) (Fl.fin y) = Fl.fin (crpsIntegral xs y - fairOffset xs) := by
+  have hne : xs ≠ [] := by intro h; simp [h] at hx
+  rw [total_fair_fin hx, ← kernelEcdf_eq_integral hne]
+  congr 1
+  unfold kernelFair kernelEcdf fairOffset
+  rw [pairSum_eq]
+  have h2 : (2 : Rat) ≤ xs.length := by exact_mod_cast hx
+  have h1 : (xs.length : Rat) - 1 ≠ 0 := by linarith
+  have h0 : (xs.length : Rat) ≠ 0 := by linarith
+  field_simp; ring
+example : 2 ≤ ([1, 3] : List Rat).length := by decide
+
+/-- F8: one valid member and 'fair' is 0/0 = NaN (the IEEE value of the documented formula) -/
+theorem crpsEns_fair_single_member (a : Rat) (y : Fl) : total .fair [Fl.fin a] y = Fl.nan := total_fair_single a y
+
+/-! ## 3. components: total = underforecast + overforecast − spread -/
+
+theorem total_eq_under_add_over_sub_spread (m : Method) {xs : List Rat} (hx : xs ≠ []) (y : Rat) :
+    let c := components m (xs.map Fl.fin) (Fl.fin y)
+    c.total = Fl.sub (Fl.add c.under c.over) c.spread := by
+  simp only [components, total]
+  rw [spreadComp_fin hx, fcstObs_eq_under_add_over hx]
+
+/-- the penalties are the documented means of (y − x)⁺ and (x − y)⁺ over the members -/
+theorem under_eq_doc {xs : List Rat} (hx : xs ≠ []) (y : Rat) :
+    under (xs.map Fl.fin) (Fl.fin y) = Fl.fin ((xs.map fun x => if x < y then y - x else 0).sum / xs.length) :=
+  under_fin hx y
+theorem over_eq_doc {xs : List Rat} (hx : xs ≠ []) (y : Rat) :
+    over (xs.map Fl.fin) (Fl.fin y) = Fl.fin ((xs.map fun x => if y < x then x - y else 0).sum / xs.length) :=
+  over_fin hx y
+
+/-! ## 4. lower tail + interval + upper tail = unweighted CRPS -/
+
+/-- the pointwise partition identity of the three chaining functions -/
+theorem chaining_partition {a b : Rat} (hab : a ≤ b) (x y : Rat) :
+    |min x a - min y a| + |min (max x a) b - min (max y a) b| + |max x b - max y b| = |x - y| :=
+  partition_abs hab x y
+example : (0 : Rat) ≤ 1 / 2 := by norm_num
+
+/-- for every split a ≤ b, both methods, any ensemble for which the method yields a number
+    (`enough`: ≥ 1 member for 'ecdf', ≥ 2 for 'fair') -/
+theorem tail_interval_tail_eq_crps (m : Method) {a b : Rat} (hab : a ≤ b) {xs : List Rat} (h : enough m xs.length) (y : Rat) :
+    Fl.add (Fl.add (tailLower (Fl.fin a) m (xs.map Fl.fin) (Fl.fin y)).total
+                   (interval (Fl.fin a) (Fl.fin b) m (xs.map Fl.fin) (Fl.fin y)).total)
+           (tailUpper (Fl.fin b) m (xs.map Fl.fin) (Fl.fin y)).total
+      = total m (xs.map Fl.fin) (Fl.fin y) := by
+  simp only [tailLower, tailUpper, interval, tw, components_total, map_chainLower, map_chainUpper, map_chainInterval,
+    chainLower, chainUpper, chainInterval, min_fin, max_fin]
+  have e1 : ∀ z, min z a = vLo a z := fun _ => rfl
+  have e2 : ∀ z, min (max z a) b = vMid a b z := fun _ => rfl
+  have e3 : ∀ z, max z b = vHi b z := fun _ => rfl
+  rw [e1, e2, e3, total_fin (by simpa using h), total_fin (by simpa using h), total_fin (by simpa using h), total_fin h]
+  simp only [Fl.add_fin, kernel_partition m hab]
+example : enough .fair ([0, 1, 1] : List Rat).length := by show 2 ≤ 3; decide
+
+/-! ## 5. invariances -/
+
+/-- member order (any members, incl. NaN / inf; every component) -/
+theorem crps_perm (m : Method) {xs xs' : List Fl} (p : xs.Perm xs') (y : Fl) :
+    components m xs y = components m xs' y := components_perm m p y
+example : ([Fl.fin 1, Fl.nan, Fl.fin 2] : List Fl).Perm [Fl.nan, Fl.fin 2, Fl.fin 1] := by decide
+
+theorem crps_translate (m : Method) (c : Rat) {xs : List Rat} (h : enough m xs.length) (y : Rat) :
+    total m ((xs.map (· + c)).map Fl.fin) (Fl.fin (y + c)) = total m (xs.map Fl.fin) (Fl.fin y) := by
+  rw [total_fin (by simpa using h), total_fin h, kernel_translate]
+
+theorem crps_scale (m : Method) (c : Rat) {xs : List Rat} (h : enough m xs.length) (y : Rat) :
+    total m ((xs.map (c * ·)).map Fl.fin) (Fl.fin (c * y)) = Fl.mul (Fl.fin |c|) (total m (xs.map Fl.fin) (Fl.fin y)) := by
+  rw [total_fin (by simpa using h), total_fin h, kernel_scale, Fl.mul_fin]
+
+/-! ## 6. sign -/
+
+theorem crps_ecdf_nonneg {xs : List Rat} (hx : xs ≠ []) (y : Rat) :
+    ∃ v : Rat, total .ecdf (xs.map Fl.fin) (Fl.fin y) = Fl.fin v ∧ 0 ≤ v :=
+  ⟨kernelEcdf xs y, total_ecdf_fin hx y, kernelEcdf_nonneg hx y⟩
+
+theorem crps_ecdf_eq_zero_iff {xs : List Rat} (hx : xs ≠ []) (y : Rat) :
+    total .ecdf (xs.map Fl.fin) (Fl.fin y) = Fl.fin 0 ↔ ∀ x ∈ xs, x = y := by
+  rw [total_ecdf_fin hx, ← kernelEcdf_eq_zero_iff hx]
+  constructor
+  · intro h; injection h
+  · intro h; rw [h]
+
+/-- the integral itself is non-negative (independent of the kernel form) -/
+theorem crpsIntegral_nonneg (xs : List Rat) (y : Rat) : 0 ≤ crpsIntegral xs y :=
+  stepIntegral_nonneg (fun t => by unfold integrand; positivity) (pairwise_grid _)
+
+/-
+  ◇ stretch, not proved here (carried by the oracle: exact step integration of the REAL brier_score_for_ensemble values
+  over the member/obs grid, compared with the real CRPS and with `Spec.brierIntegral` in exact arithmetic):
+
+  theorem brier_integral_eq_crps_stmt {xs : List Rat} (hx : xs ≠ []) (y : Rat) :
+      brierIntegral false xs y = crpsIntegral xs y
+  theorem brier_integral_fair_eq_crps_stmt {xs : List Rat} (hx : 2 ≤ xs.length) (y : Rat) :
+      brierIntegral true xs y = crpsIntegral xs y - fairOffset xs
+  theorem tw_eq_weighted_integral_stmt … : (tw-variant).total = Fl.fin (twIntegral a? b? xs y)
+-/
+
 end SV.Props.C06
